@@ -37,8 +37,8 @@ AppMsg(m) == CASE m = "ccr" -> [msg |-> [app |-> 4, code |-> 272, req |-> TRUE],
 IsApp(m) == m \in {"ccr", "cca", "ulr", "rar"}
 FailCode(m) == CASE m = "cer_bad" -> 5010 [] m = "cer_noid" -> 5012 [] m = "cer_sec" -> 5017
 
-\* wbroken: a transport write has failed; the buffered writer keeps the error and every later
-\* write on the connection fails too
+\* wbroken: reserved for a transport whose write side stays broken (never set since messages are
+\* handed to the transport directly: a failed write no longer poisons later writes)
 Init0 == [hs |-> FALSE, closed |-> FALSE, wbroken |-> FALSE]
 \* can the answer to a CER be delivered?  cfg "noaddr": no host address configured and the local
 \* endpoint has no numeric port, so no CEA can be built at all
@@ -57,7 +57,7 @@ Step(side, cfg, s, m) ==
   ELSE IF side = "server" THEN
        IF s.hs THEN Quiet(s)                                            \* any CER after the handshake is ignored
        ELSE IF m = "cer_ok_wfail" THEN \* acceptable CER whose CEA the transport refuses: no exchange has succeeded
-            [s |-> [s EXCEPT !.wbroken = TRUE], fired |-> <<>>, wrote |-> <<>>, anydwa |-> FALSE]
+            Quiet(s)
        ELSE IF m = "cer_ok" THEN
             IF CanAnswer(cfg, s) THEN [s |-> [s EXCEPT !.hs = TRUE], fired |-> <<>>, wrote |-> <<[cmd |-> 257, rc |-> 2001]>>, anydwa |-> FALSE]
             ELSE Quiet(s)                                               \* no success CEA was written: the gate stays shut
